@@ -119,16 +119,20 @@ def run(tier, replay=None):
                     kk: str(v) for kk, v in jobs[k][0][-1].items()}})
     if not replay:      # replay canaries: corrupted spec states
         import copy
-        muts = []
+        # several candidates per kind: a corrupted spec state is only
+        # observable if the survey still distinguishes the values (e.g. an
+        # array noise floor on a 1x1x1 selection is stored as a scalar)
+        kinds = {"nf": [], "nan": [], "keys": []}
         for steps, sd in jobs:
             for i, st in enumerate(steps):
+                full = all(len(st["keys"][k]) == 2 for k in "srf")
                 if st["last"]["op"] == "set_nf" and st["nf"]["k"] == "array" \
-                        and len(muts) == 0:
+                        and full and len(kinds["nf"]) < 6:
                     c = copy.deepcopy(steps[:i+1])
                     c[-1]["nf"]["v"] = c[-1]["nf"]["v"] % 4 + 1
-                    muts.append((c, sd))
-                if st["last"]["op"] == "add_noise" and len(muts) == 1 and \
-                        any(st["nan"].values()):
+                    kinds["nf"].append((c, sd))
+                if st["last"]["op"] == "add_noise" and \
+                        len(kinds["nan"]) < 6 and any(st["nan"].values()):
                     c = copy.deepcopy(steps[:i+1])
                     k0 = [k for k, v in c[-1]["nan"].items() if not v
                           and k[0] in c[-1]["keys"]["s"]
@@ -136,19 +140,25 @@ def run(tier, replay=None):
                           and k[2] in c[-1]["keys"]["f"]]
                     if k0:
                         c[-1]["nan"][k0[0]] = True
-                        muts.append((c, sd))
-                if st["last"]["op"] == "select" and len(muts) == 2 and \
-                        len(st["keys"]["s"]) == 2:
+                        kinds["nan"].append((c, sd))
+                if st["last"]["op"] == "select" and len(kinds["keys"]) < 6 \
+                        and len(st["keys"]["s"]) == 2:
                     c = copy.deepcopy(steps[:i+1])
                     c[-1]["keys"]["s"] = c[-1]["keys"]["s"][::-1]
-                    muts.append((c, sd))
-        if len(muts) < 3:
+                    kinds["keys"].append((c, sd))
+        if any(not v for v in kinds.values()):
             raise C.MachineryError("could not build replay canaries")
-        with mp.get_context("fork").Pool(3) as pool:
+        muts = [m for v in kinds.values() for m in v]
+        with mp.get_context("fork").Pool(min(C.NCPU, len(muts))) as pool:
             cres = pool.map(_replay, muts)
-        for probs in cres:
-            hit = any(k in ("state", "ret") for _, k, _ in probs)
-            rep.canary(hit)
-            if not hit:
-                raise C.MachineryError("replay canary not detected")
+        k = 0
+        for name, v in kinds.items():
+            hits = [any(kk in ("state", "ret") for _, kk, _ in probs)
+                    for probs in cres[k:k+len(v)]]
+            k += len(v)
+            rep.canary(any(hits))
+            rep.cov.setdefault("replay_canaries", {})[name] = \
+                f"{sum(hits)}/{len(hits)} corrupted states detected"
+            if not any(hits):
+                raise C.MachineryError(f"replay canary '{name}' not detected")
     return rep.finish()
